@@ -41,6 +41,7 @@ type Solver struct {
 	timeoutMS  int
 	curTimeout int
 	nra        bool // float_mode=real: use the NRA portfolio in Check
+	nlsatFirst bool
 	frames     [][]*Term // assertion stack (frame 0 = base), for replay after a watchdog restart
 	// stats
 	Queries  int
@@ -247,6 +248,11 @@ func (s *Solver) Check() SatResult {
 	if short < 1500 {
 		short = 1500
 	}
+	if s.nlsatFirst {
+		// harness option nlsatFirst=1: the default strategy rarely decides
+		// this harness's queries within the short limit, so it only gets 300 ms
+		short = 300
+	}
 	r := s.checkOnce("(check-sat)", short, false)
 	if r != Unknown {
 		return r
@@ -298,13 +304,12 @@ func (s *Solver) checkOnce(cmd string, timeoutMS int, final bool) (result SatRes
 				s.restarts++
 				s.start()
 				s.replayFrames()
-				if !final {
-					killed = true
-					return
+				killed = true
+				if final {
+					s.Queries++
+					s.NUnknown++
 				}
-				s.Queries++
-				s.NUnknown++
-				panic(pathEnd{status: StUnknown, msg: "solver killed after timeout"})
+				return
 			}
 			panic(r)
 		}
@@ -328,6 +333,9 @@ func (s *Solver) checkOnce(cmd string, timeoutMS int, final bool) (result SatRes
 	}
 	if sawErr || !got {
 		res = Unknown
+	}
+	if debugQueries {
+		fmt.Fprintf(os.Stderr, "stage %.30s: %s %.2fs\n", cmd, res, time.Since(t0).Seconds())
 	}
 	if res == Unknown && !final {
 		s.Time += time.Since(t0)
